@@ -12,6 +12,10 @@
 #include <thread>
 #include <vector>
 #include <pthread.h>
+#include <dlfcn.h>
+#include <clocale>
+#include <csignal>
+#include <atomic>
 #include "cbor.h"
 #include "common/harness.hpp"
 #include "alloc/valloc.hpp"
@@ -26,6 +30,24 @@ using vh::Case; using vh::Result; using vh::Ctx;
 static void* cap_malloc(size_t n) { return n > ((size_t)1 << 24) ? nullptr : malloc(n ? n : 1); }
 static void* cap_realloc(void* p, size_t n) { return n > ((size_t)1 << 24) ? nullptr : realloc(p, n ? n : 1); }
 static void cap_free(void* p) { free(p); }
+
+// ---- process-global state reached through the C library ------------------------------------------
+// The harness interposes the libc entry points that mutate process-wide state.  A call made while a
+// workload is running can only come from libcbor ("keeps no hidden mutable global state").
+static thread_local int tl_in_workload = 0;
+static std::atomic<int> g_global_mutations{0};
+static const char* volatile g_global_fn = "";
+static void note_global(const char* fn) { if (tl_in_workload) { g_global_mutations++; g_global_fn = fn; } }
+typedef char* (*setlocale_t)(int, const char*); typedef int (*setenv_t)(const char*, const char*, int); typedef int (*putenv_t)(char*);
+typedef int (*unsetenv_t)(const char*); typedef void (*srand_t)(unsigned); typedef int (*chdir_t)(const char*);
+extern "C" {
+char* setlocale(int cat, const char* loc) noexcept { static setlocale_t real = (setlocale_t)dlsym(RTLD_NEXT, "setlocale"); if (loc) note_global("setlocale"); return real(cat, loc); }
+int setenv(const char* n, const char* v, int o) noexcept { static setenv_t real = (setenv_t)dlsym(RTLD_NEXT, "setenv"); note_global("setenv"); return real(n, v, o); }
+int putenv(char* e) noexcept { static putenv_t real = (putenv_t)dlsym(RTLD_NEXT, "putenv"); note_global("putenv"); return real(e); }
+int unsetenv(const char* n) noexcept { static unsetenv_t real = (unsetenv_t)dlsym(RTLD_NEXT, "unsetenv"); note_global("unsetenv"); return real(n); }
+void srand(unsigned v) noexcept { static srand_t real = (srand_t)dlsym(RTLD_NEXT, "srand"); note_global("srand"); real(v); }
+int chdir(const char* d) noexcept { static chdir_t real = (chdir_t)dlsym(RTLD_NEXT, "chdir"); note_global("chdir"); return real(d); }
+}
 
 static std::vector<gen::Bytes> g_pool;   // immutable after start-up: shared read-only by all threads
 
@@ -62,7 +84,9 @@ static const uint8_t kPrelude[] = {0x9f, 0x00, 0x18, 0xff, 0x19, 0x01, 0x00, 0x1
                                    0x41, 0x01, 0x5f, 0x41, 0x02, 0xff, 0x62, 0xc3, 0xa9, 0x7f, 0x61, 0x61, 0xff, 0x81, 0x00, 0xa1, 0x00, 0x01, 0xbf, 0x00, 0x01, 0xff, 0xc1, 0x00, 0xd8, 0x18, 0x00,
                                    0xf4, 0xf5, 0xf6, 0xf7, 0xf9, 0x3c, 0x00, 0xf9, 0x00, 0x01, 0xf9, 0x7e, 0x00, 0xfa, 0x3f, 0x80, 0, 0, 0xfb, 0x3f, 0xf0, 0, 0, 0, 0, 0, 0, 0xff};
 
-static void workload(uint64_t seed, uint64_t ops, Digest& d) {
+static void workload_body(uint64_t seed, uint64_t ops, Digest& d);
+static void workload(uint64_t seed, uint64_t ops, Digest& d) { tl_in_workload = 1; workload_body(seed, ops, d); tl_in_workload = 0; }
+static void workload_body(uint64_t seed, uint64_t ops, Digest& d) {
   {
     struct cbor_load_result r; cbor_item_t* it = cbor_load(kPrelude, sizeof kPrelude, &r);
     d.add64(r.error.code); d.add64(r.read);
@@ -120,6 +144,7 @@ static Result judge(const Case& c) {
   pthread_barrier_destroy(&bar);
   for (unsigned t = 0; t < nth; t++) workload(vh::splitmix64(seed * 64 + t), ops, solo[t]);
   r.nontrivial = nth >= 2 && conc[0].allocating_ops >= 10;
+  if (g_global_mutations.load()) { r.ok = false; r.msg = std::string("libcbor changed process-wide state through ") + (const char*)g_global_fn + "() while a workload was running (hidden mutable global state)"; g_global_mutations = 0; return r; }
   for (unsigned t = 0; t < nth; t++)
     if (conc[t].h != solo[t].h) { r.ok = false; r.msg = "thread " + std::to_string(t) + " of " + std::to_string(nth) + " obtained different results running concurrently than the same workload running alone"; break; }
   return r;
